@@ -22,7 +22,7 @@ class C20(Spec):
     pid = "C20"
     lean_module = "NunVerif.Props.C17Close"
     theorems = ["Nun.C20_executed_once_in_order", "Nun.C20_aligned", "Nun.C20_entry_count", "Nun.C20_session_released", "Nun.unwatch_removes", "Nun.C20_http_request_end_releases_unconditionally",
-                "Nun.C20_ws_message_runs_pieces_in_order", "Nun.C20_ws_message_one_trailer_per_piece", "Nun.transportTrailer_ok", "Nun.transportTrailer_differs_only_on_version_errors", "Nun.tcpLine_state"]
+                "Nun.C20_ws_message_runs_pieces_in_order", "Nun.C20_ws_message_one_trailer_per_piece", "Nun.transportTrailer_ok", "Nun.transportTrailer_differs_only_on_version_errors", "Nun.tcpLine_state", "Nun.C20_trailer_arms_of_the_source", "Nun.transportTrailer_is_the_table"]
     rule = ("all bodies of 1-2 commands (quick; 1-3 thorough) from the quantifier's list (auth ok/bad, use-db ok/bad/user, get, get-safe, set, set-safe ok/stale, remove, increment ok/non-numeric, keys, "
             "create-db, refused for missing selection / permission / secure key, unknown, malformed) with and without a trailing ';' and with empty and whitespace-only blank statements in every position, plus seeded random bodies of up to 6 commands; "
             "plus administrator bodies with a refused create-db (existing name, same / other token / other strategy) between commands that use the database; "
